@@ -552,6 +552,12 @@ impl<'a> GeneralCheck<'a> {
                         .entry(name)
                         .and_modify(|val| val.push(regex.syntax()))
                         .or_insert(vec![regex.syntax()]);
+                } else if let Some((name, _)) = rule.name(cst) {
+                    // without a node name a node of the current rule is created
+                    sema.rule_bindings
+                        .entry(name)
+                        .and_modify(|val| val.push(regex.syntax()))
+                        .or_insert(vec![regex.syntax()]);
                 }
                 if regex.whole_rule(cst) {
                     sema.has_rule_creation.insert(rule);
